@@ -90,6 +90,11 @@ class StmtMixin:
             raise Unsupported("statement " + type(s).__name__ + ": " + src(s).split("\n")[0])
         return m(s, env, lambda env2: self.block(rest, env2, fall))
 
+    def s_Continue(self, s, env, nxt):
+        if not self.loop_falls:
+            raise Unsupported("continue outside a for loop")
+        return self.loop_falls[-1](env)
+
     def s_Pass(self, s, env, nxt):
         return nxt(env)
 
@@ -375,6 +380,10 @@ class StmtMixin:
             raise Unsupported("chained assignment")
         target = s.targets[0]
         v = s.value
+        if isinstance(target, ast.Name) and target.id in self.erased_locals:
+            # a display text (declared in the specs): never evaluated
+            env2, _ = self.assign_target(target, "()", ERASED, env)
+            return nxt(env2)
         # effect objects: creation, another name for the same object, a method call with a result
         new = self.effect_new(v, env)
         if new is not None and isinstance(target, ast.Name):
@@ -621,8 +630,8 @@ class StmtMixin:
         if s.orelse:
             raise Unsupported("for … else")
         for n in ast.walk(s):
-            if isinstance(n, (ast.Return, ast.Break, ast.Continue)):
-                raise Unsupported("return / break / continue inside a loop")
+            if isinstance(n, (ast.Return, ast.Break)):
+                raise Unsupported("return / break inside a loop")
         state = [n for n in self.canon_names(assigned_names(s.body), env, s.body) if n in env]
         for n in state:
             self.check_mutable(n) if isinstance(resolve(env[n][1]), (TList, TDict)) else None
@@ -643,9 +652,21 @@ class StmtMixin:
             env_in[n] = (nm, t)
             if len(keep) > 1:
                 lets.append("let {} := {}".format(nm, proj(st, i, len(keep))))
-        env_in, tl = self.bind_target(s.target, x, el, env_in)
+        unpack = None
+        rel = resolve(el)
+        if isinstance(s.target, (ast.Tuple, ast.List)) and isinstance(rel, TList) and len(s.target.elts) in (2, 3):
+            # `for a, b, c in <list of lists>`: exactly that many entries, else ValueError
+            k = len(s.target.elts)
+            pv = self.fresh("p")
+            unpack = "(Py.unpack{} {}) >>= fun {} =>\n".format(k, x, pv)
+            self.raised += 1
+            env_in, tl = self.bind_target(s.target, pv, TTuple([rel.elem] * k), env_in)
+        else:
+            env_in, tl = self.bind_target(s.target, x, el, env_in)
         self.mark_aliases(s.target, el)
         lets += tl
+        if unpack is not None:
+            lets = [l for l in lets if l not in tl]
         falls = []
 
         def fall(env_b):
@@ -654,7 +675,11 @@ class StmtMixin:
             return key
         before = self.raised
         saved_ret = len(self.returns)
-        body = self.block(s.body, env_in, fall)
+        self.loop_falls.append(fall)          # `continue`: the end of this iteration, with the state at that point
+        try:
+            body = self.block(s.body, env_in, fall)
+        finally:
+            self.loop_falls.pop()
         monadic_loop = self.raised > before
         # loop-invariant types
         new_tys = []
@@ -675,6 +700,8 @@ class StmtMixin:
             body = body.replace(key, "Except.ok {}".format(tup) if monadic_loop else tup)
         st_ty = TTuple(tys).lean() if len(tys) != 1 else resolve(tys[0]).lean()
         init = tuple_code([coerce(env[n][0], env[n][1], t) for n, t in zip(keep, tys)])
+        if unpack is not None:
+            body = unpack + "".join(l + "\n" for l in tl) + body
         fn = "(fun ({} : {}) ({} : {}) =>\n{})".format(st, st_ty, x, resolve(el).lean(),
                                                        indent("".join(l + "\n" for l in lets) + body))
         env2 = dict(env)
